@@ -35,6 +35,27 @@ CLAIMED = {
             "cost consistency and optimality: a dual lower bound evaluated in rationals proves the returned cost is within 1e-4 of "
             "optimal; rejections are confirmed by the exact QP. Thorough adds n=5 and families to 60 variables.",
             "trusted: mc/oracles.py (dual bound arithmetic, qp_exact), self-tested against PAVA in ./setup", "DESIGN.md section 4 C05"),
+    "C07": ("bounded-exhaustive enumeration of datasets x directions x scales x domains x engine/layout options x back-ends, each "
+            "exported by the real Timeline classes, parsed (SVG via ElementTree, TikZ via anchored regexes) and compared with an "
+            "exact affine model of the caller's own data",
+            "Every dataset sequence of <=2 (thorough <=3) data over a 36-letter alphabet per scale kind x 48 configurations x 2 "
+            "back-ends; oracle checks counts, axis, dot/tick positions on one affine time function, link continuity/shape/layer "
+            "offsets/end point, box sizes and texts.", "trusted: parsers and geometric model in mc/draw.py, mc/drawcases.py",
+            "DESIGN.md section 4 C07"),
+    "C08": ("bounded-exhaustive enumeration of datasets x directions x engine options x layer gaps on the real export; rectangle "
+            "disjointness/side/layer-order invariant",
+            "Every multiset of <=3 (thorough <=4) data over 24 letters x 4 directions x 5 engine option sets x 3 layer gaps.",
+            "trusted: mc/draw.py parsers", "DESIGN.md section 4 C08"),
+    "C09": ("bounded-exhaustive differential exploration: the same enumerated inputs through both real back-ends, parsed records "
+            "compared field by field",
+            "C07's dataset scope x 48 configurations with 10 colour/border/tick variants in rotation; SVG and TikZ records must "
+            "agree on axis, boxes, links point for point, dots, ticks, colours and texts.", "trusted: mc/draw.py parsers, mc/uni.py",
+            "DESIGN.md section 4 C09"),
+    "C11": ("bounded-exhaustive enumeration of documented input shapes (date ladder x spans x types x sizes; option forms x "
+            "directions x algorithms x bounds) on the real constructors and export(); deep-narrow sweep over cluster sizes",
+            "No-exception / parses / one mark per datum / degenerate-domain clause on every enumerated shape; thorough adds "
+            "200-1000 labels with clusters up to 200; the 250-cluster RecursionError is a recorded known finding.",
+            "trusted: parsers; 30 s wall-clock horizon per export", "DESIGN.md section 4 C11"),
     "C12": ("exhaustive grid of domains/ranges/queries against an exact rational affine map, plus breadth-first search over "
             "API-call histories (domain/range/clamp/nice/copy on a pool of scales) with aliasing-aware state fingerprints",
             "E-INPUT: all (domain, range, query) combinations of a 14-value float grid; E-HIST: every call history up to depth 4 "
@@ -63,6 +84,11 @@ CLAIMED = {
             "ranges, against a calendar reference model (datetime/timedelta/calendar)",
             "Thorough covers every day 1900-2200; quick covers 9 boundary years; ranges over month-end/week-boundary starts x 5 spans "
             "x steps 1..12.", "trusted: mc/cal.py; week numbering for dt>1 judged numbering-agnostically", "DESIGN.md section 4 C17"),
+    "C19": ("complete enumeration of all 1,112,064 Unicode scalar values in 4 contexts plus all strings up to length 4 (5) over a "
+            "mixed alphabet on the real uni2tex (thorough: also through TimelineTex.export), read-back reference",
+            "E-FULL over code points, bounded-exhaustive over strings; accent commands are read back as combining marks and "
+            "compared with the input under NFD; ASCII must be unchanged.", "trusted: unicodedata of the interpreter; mc/uni.py",
+            "DESIGN.md section 4 C19"),
     "C20": ("exhaustive enumeration of the finite domain (all indices 0..10^6, all hex codes) on the real functions",
             "Complete enumeration: every index 0..10^6 against the shortlex sequence, every 3-digit code and (thorough) "
             "every 6-digit code in both cases against integer parsing. Within the stated domain this is total coverage.",
